@@ -155,8 +155,15 @@ def universal(rng, nif=None, length=None, with_glob_changes=True):
     ops = []
     for i in range(nif):
         kw = {}
-        if rng.random() < 0.3:
-            kw.update(wifi=1, mode=rng.choice([0, 1, 2]), bssid=rng.choice(STATIONS), ssid='6162', rate=108, rssi=-40)
+        if rng.random() < 0.4:
+            kw.update(wifi=1, mode=rng.choice([0, 1, 2, 255]), bssid=rand_mac(rng),
+                      ssid=(''.join('%02x' % rng.choice([0, 0x41, 0x61, rng.randrange(256)]) for _ in range(rng.choice([0, 1, 4, 6, 31, 32, 33, 40]))) or '-'),
+                      ssidrep=rng.choice(['copied', 'full']), rate=rand_u16(rng), rssi=rng.choice([-128, -1, 0, 1, 127, -60]))
+        kw['flags'] = rng.choice([0, 0x2000, 0x800, 0x2800, 0x8000, 0xa000, 0xffff, 0x12345678, 0xffffffff])
+        kw['iftype'] = rng.choice([6, 71, 0, 0xffffffff])
+        kw['speed'] = rng.choice([0, 1, 1000000, 0x7fffffff, 0x80000000, 0xffffffff])
+        kw['ipv4'] = '%08x' % rng.choice([0, 0xc0a80105, 0xffffffff, rng.randrange(2**32)])
+        kw['buf0'] = rng.choice([0, 0xff, 0x5a])
         ops.append(iface_line(i, mac=macs[i], mtu=mtus[i], **kw))
     hostlen = rng.choice([0, 1, 6, 6, 31, 32, 33, 40])
     ops.append(glob_line(host=(''.join('%02x' % rng.randrange(1, 256) for _ in range(hostlen)) or '-'), hostrep=rng.choice(['copied', 'copied', 'full']),
@@ -226,7 +233,17 @@ def universal(rng, nif=None, length=None, with_glob_changes=True):
             f = rng.choice([raw(0, rng.choice([5, 7, 9, 10, 12, 13, 200]), own, who, own, who, seq, '0001'), mutate(rng, discover(who, 1, 1, eth_src=eth))])
         if len(f) // 2 > mtu:
             f = f[:2 * mtu]
+        elif rng.random() < 0.12 and len(f) // 2 == 60 and f.endswith('00' * 20):
+            f = f.rstrip('0')                    # the frame without Ethernet padding (what a tap / a loopback delivers) ...
+            f += '0' * (len(f) % 2)
+            f += '00' * max(0, 32 - len(f) // 2)  # ... but never shorter than the base header
+        elif rng.random() < 0.05:
+            f = f + '00' * (mtu - len(f) // 2)    # padded to the full buffer
         ops.append('rx %d %s%s' % (i, f or '-', z))
+        if rng.random() < 0.04:
+            # an attribute of the interface changes between two frames; getters other than address / MTU may start or stop failing
+            ops.append('set %d %s' % (i, rng.choice(['speed=%d' % rng.choice([0, 1000000, 0x80000000, 0xffffffff]), 'flags=%d' % rng.choice([0, 0x2000, 0x2800, 0xa000]),
+                                                     'ipv4=%08x' % rng.randrange(2**32), 'iftype=%d' % rng.choice([6, 71]), 'getfail=%d' % (rng.randrange(512) & ~3), 'getfail=0'])))
         if with_glob_changes and rng.random() < 0.05:
             ops.append(rng.choice(['glob icon=%s' % rng.choice(BLOBS), 'glob fname=%s' % rng.choice(BLOBS[:5]),
                                    'glob host=%s' % (''.join('%02x' % rng.randrange(1, 256) for _ in range(rng.choice([0, 2, 13, 32, 33]))) or '-'),
